@@ -406,6 +406,36 @@ func c01CheckMisc(c c01MiscCase) engine.Result {
 					break
 				}
 			}
+			// packets everybody builds (the 0xFF stuffing packet on the null PID, a zero packet, the library's own
+			// New() and example packets): constructing one, scribbling over the result and constructing it again gives
+			// a second, untouched, independent packet each time
+			if c.N == 188 {
+				stuffing := bytes.Repeat([]byte{0xFF}, 188)
+				copy(stuffing, []byte{0x47, 0x1F, 0xFF, 0x10})
+				zero := make([]byte, 188)
+				copy(zero, []byte{0x47, 0x1F, 0xFF, 0x10})
+				np := packet.New()
+				for wi, well := range [][]byte{stuffing, zero, append([]byte{}, np[:]...), append([]byte{}, packet.TestPatPacket[:]...), append([]byte{}, packet.TestPmtPacket[:]...)} {
+					ref0 := append([]byte{}, well...)
+					var prev *packet.Packet
+					for round := 0; round < 3; round++ {
+						res.Evals++
+						q, qerr := packet.FromBytes(well)
+						if qerr != nil || q == nil || !bytes.Equal(q[:], ref0) || q == prev {
+							res.Failf("FromBytes|well-known-packet-constructed-again", "well-known packet #%d, construction %d: err=%v, equal to the input: %v, same object as before: %v", wi, round+1, qerr, q != nil && bytes.Equal(q[:], ref0), q == prev)
+							break
+						}
+						for i := range q {
+							q[i] ^= 0x5A
+						}
+						if !bytes.Equal(well, ref0) {
+							res.Failf("FromBytes|aliases-input", "well-known packet #%d shares memory with the input slice", wi)
+							break
+						}
+						prev = q
+					}
+				}
+			}
 			// the same length as a slice CUT OUT of a larger buffer that holds a flawless packet (a short read into
 			// a reused buffer): what counts is the length of the slice, not what lies behind it
 			if c.N <= 400 {
